@@ -71,7 +71,4 @@ def run(ctx):
 
 
 def replay(ctx, path):
-    with open(path) as fh:
-        rp = json.load(fh)
-    print(json.dumps(rp["witness"], indent=1)[:4000])
-    return 1
+    return c13.replay(ctx, path)
